@@ -19,7 +19,8 @@ type Model struct {
 }
 
 func startModel(path string) (*Model, error) {
-	cmd := exec.Command(path)
+	// deep structural recursion over table slots needs a large stack
+	cmd := exec.Command("/bin/sh", "-c", "ulimit -s 4000000 2>/dev/null || ulimit -s unlimited 2>/dev/null; exec \"$0\"", path)
 	in, err := cmd.StdinPipe()
 	if err != nil {
 		return nil, err
